@@ -228,7 +228,9 @@ func (b *Built) Run(input []byte, o *rtapi.RunOpts, script map[int]*rtapi.Block)
 		}
 	}
 	ctx := &rtapi.Ctx{Script: script}
-	vsync.Violations = nil
+	// every run starts with empty state pools: an observation is a function of
+	// the case alone (replayable), never of the cases run before it
+	vsync.Reset()
 	obs := b.RT.Run(input, o, ctx)
 	if len(vsync.Violations) > 0 {
 		obs.Pool = vsync.Violations
